@@ -64,6 +64,17 @@ sys_cleanup(addrxlat_sys_t *sys)
 			internal_map_decref(sys->map[i]);
 			sys->map[i] = NULL;
 		}
+
+	if (sys->os_lookup_tbl) {
+		/* Do not leave a method behind that uses the table. */
+		for (i = 0; i < ADDRXLAT_SYS_METH_NUM; ++i)
+			if (sys->meth[i].kind == ADDRXLAT_LOOKUP &&
+			    sys->meth[i].param.lookup.tbl ==
+			    sys->os_lookup_tbl)
+				sys->meth[i].kind = ADDRXLAT_NOMETH;
+		free(sys->os_lookup_tbl);
+		sys->os_lookup_tbl = NULL;
+	}
 }
 
 unsigned long
